@@ -1524,6 +1524,16 @@ func (fr *Frame) builtin(t *ssa.Call, b *ssa.Builtin) {
 			unsup("cap of %s", args[0].Type())
 		}
 		fr.set(t, scap(x.T))
+	case "Add":
+		// unsafe.Add(p, n): an uninterpreted offset of an untyped pointer (component memory is
+		// outside the heap model; what matters is which pointer and which offset are combined)
+		if _, ok := vc.declared["uadd"]; !ok {
+			vc.declared["uadd"] = "fun"
+			vc.decls = append(vc.decls, "(declare-fun uadd (Ptr (_ BitVec 64)) Ptr)")
+		}
+		p := fr.term(args[0])
+		n := fr.idx64(fr.term(args[1]), args[1].Type())
+		fr.set(t, app(SPtr, "uadd", p, n))
 	case "append":
 		fr.appendBuiltin(t)
 	case "copy":
